@@ -356,7 +356,11 @@ class Formula:
         if isinstance(func, NullFormula):   # TODO: Make NULL_FORMULA singleton
             self._copy_other(func)
         elif isinstance(func, Formula):
-            self.__init__(func.source, name, module)
+            if func.source is None:
+                # Created from a function whose source is not available
+                self.__init__(func.func, name, module or func.module)
+            else:
+                self.__init__(func.source, name, module)
         elif isinstance(func, FunctionType):
             if module is not None:
                 self.module = module
@@ -374,6 +378,7 @@ class Formula:
                 self.func = func
                 self.signature = signature(func)
                 self.source = None
+                self._is_lambda = is_func_lambda(func)
 
         elif isinstance(func, str):
             self.module = module
